@@ -742,7 +742,14 @@ func describeL2(c *l2Case) map[string]any {
 
 var l2Props = []string{"C01", "C03", "C04", "C05", "C07", "C08"}
 
+type earlyCase struct {
+	c   *l2Case
+	key string
+	obs map[string]any
+}
+
 func runL2(args []string) {
+	var early []earlyCase
 	fs := flag.NewFlagSet("l2", flag.ExitOnError)
 	n := fs.Int("n", 1500, "number of generated cases")
 	seed := fs.Uint64("seed", 1, "seed")
@@ -882,6 +889,9 @@ func runL2(args []string) {
 			holds[p] = getBool(resp, strings.ToLower(p))
 		}
 		holds["C16"] = det
+		if len(early) < 120 {
+			early = append(early, earlyCase{c, res.key(), res.obs()})
+		}
 		if valuesStray != "" {
 			holds["C03"] = false
 		}
@@ -920,6 +930,20 @@ func runL2(args []string) {
 			rep.Mismatches = appendMismatch(rep.Mismatches, f2, am.A)
 		}
 	}
+	// history independence (C16): the first cases of the run are repeated at its end, after
+	// thousands of other statements over the same types were prepared and run in between
+	for _, e := range early {
+		var again *l2Run
+		if withWatchdog(15*time.Second, func() { again = runL2Case(e.c, e.c.Samples, e.c.Args) }) || again == nil || again.panic != "" {
+			continue
+		}
+		if again.key() != e.key {
+			rep.addHolds("C16", Finding{Case: describeL2(e.c), Kind: "holds",
+				Detail: fmt.Sprintf("the same statement, samples and arguments gave a different result at the end of the run than at its beginning (other statements were prepared in between): first %v, later %v", e.obs, again.obs()),
+				Holds: map[string]bool{"C16": false}, Impl: again.obs()})
+		}
+	}
+	hyp["history-independence-rechecked"] = len(early)
 	rep.Distribution["theorem_hypotheses"] = hyp
 	rep.Distribution["perturbations_and_forms"] = notes
 	rep.Distribution["outcomes"] = outcome
